@@ -1,13 +1,13 @@
 SPECIFICATION Spec
 CONSTANTS
-  N = 4
-  Kinds <- K4e
-  Units = 1
+  N = 1
+  Kinds <- K1c
+  Units = 2
   Cap = 1
   DropParentCloseW = FALSE
-  FailAt = 3
-  HereAt = 0
-  HereUnits = 0
+  FailAt = 0
+  HereAt = 1
+  HereUnits = 2
   SigpipeMode = "ignored"
   CapReadMode = "concurrent"
   Capture = FALSE
